@@ -274,3 +274,5 @@ const prelude = `(set-option :produce-models true)
 (define-fun imin ((a Int) (b Int)) Int (ite (<= a b) a b))
 (define-fun imax ((a Int) (b Int)) Int (ite (>= a b) a b))
 `
+
+func imaxT(a, b Term) Term { return mk(SInt, "imax", a, b) }
